@@ -87,7 +87,7 @@ static int split(char *line, char **tok, int max, const char *sep)
 }
 
 /* ---- object tables ---- */
-#define NSLOT 64
+#define NSLOT 1024
 static jwk_set_t *g_sets[NSLOT];
 static jwt_checker_t *g_ck[NSLOT];
 static jwt_builder_t *g_bl[NSLOT];
